@@ -135,3 +135,67 @@ def int_r_dA_quads(points, cells, r_index):
             r = np.einsum("ca,a->c", P[..., r_index], N)
             tot += float((r * det).sum())
     return tot
+
+
+# ---------------------------------------------------------------------------------------------------------------------------
+# VTK Lagrange cells: position of grid node (i, j[, k]) in the point list of a cell of the given order (same order on every
+# axis). Written from the documented layout: the 2^dim vertices in the linear cell's order, then the interior nodes of the
+# edges (edge list of the linear cell, ascending along the edge's axis), then of the faces (x-, x+, y-, y+, z-, z+; first
+# in-plane axis fastest), then of the volume (first axis fastest). Cross-checked once against vtk 9's PointIndexFromIJK.
+def vtk_lagrange_index(ijk, order):
+    o = int(order)
+    if len(ijk) == 1:
+        (i,) = ijk
+        return 0 if i == 0 else (1 if i == o else 1 + i)
+    if len(ijk) == 2:
+        i, j = ijk
+        ib, jb = i in (0, o), j in (0, o)
+        if ib and jb:
+            return (2 if j else 1) if i else (3 if j else 0)
+        off = 4
+        if not ib and jb:  # edges along the first axis: bottom (0), top (2)
+            return (i - 1) + (2 * (o - 1) if j else 0) + off
+        if ib and not jb:  # edges along the second axis: right (1), left (3)
+            return (j - 1) + ((o - 1) if i else 3 * (o - 1)) + off
+        off += 4 * (o - 1)
+        return off + (i - 1) + (o - 1) * (j - 1)
+    i, j, k = ijk
+    ib, jb, kb = i in (0, o), j in (0, o), k in (0, o)
+    nb = ib + jb + kb
+    corner = (2 if j else 1) if i else (3 if j else 0)
+    if nb == 3:
+        return corner + (4 if k else 0)
+    off = 8
+    if nb == 2:
+        if not ib:
+            return (i - 1) + (2 * (o - 1) if j else 0) + (4 * (o - 1) if k else 0) + off
+        if not jb:
+            return (j - 1) + ((o - 1) if i else 3 * (o - 1)) + (4 * (o - 1) if k else 0) + off
+        off += 8 * (o - 1)
+        return (k - 1) + (o - 1) * corner + off
+    off += 12 * (o - 1)
+    if nb == 1:
+        n2 = (o - 1) ** 2
+        if ib:
+            return (j - 1) + (o - 1) * (k - 1) + (n2 if i else 0) + off
+        off += 2 * n2
+        if jb:
+            return (i - 1) + (o - 1) * (k - 1) + (n2 if j else 0) + off
+        off += 2 * n2
+        return (i - 1) + (o - 1) * (j - 1) + (n2 if k else 0) + off
+    off += 6 * (o - 1) ** 2
+    return off + (i - 1) + (o - 1) * ((j - 1) + (o - 1) * (k - 1))
+
+
+def vtk_lagrange_grid(order, dim):
+    """(n, dim) integer grid indices of the nodes of a VTK Lagrange cell, in the cell's point order."""
+    import itertools
+    o = int(order)
+    out = np.zeros(((o + 1) ** dim, dim), dtype=int)
+    seen = np.zeros((o + 1) ** dim, dtype=bool)
+    for ijk in itertools.product(range(o + 1), repeat=dim):
+        a = vtk_lagrange_index(ijk, o)
+        out[a] = ijk
+        seen[a] = True
+    assert seen.all()
+    return out
